@@ -1,9 +1,18 @@
 use std::ptr::NonNull;
+#[cfg(folo_verif)]
+use std::sync::Arc;
+#[cfg(folo_verif)]
+use std::sync::atomic::Ordering;
+#[cfg(not(folo_verif))]
 use std::sync::atomic::{AtomicUsize, Ordering};
+#[cfg(not(folo_verif))]
 use std::sync::{Arc, Mutex};
 use std::task::{RawWaker, RawWakerVTable, Waker};
 
 use plurality::Pool;
+
+#[cfg(folo_verif)]
+use crate::verif::{AtomicUsize, Mutex};
 
 // Per-slot metadata for activation tracking and waker management.
 //
@@ -81,6 +90,14 @@ pub(crate) fn create_waker_meta(shared_parent: &Arc<Mutex<Waker>>) -> MetaPtr {
             shared_parent: Arc::clone(shared_parent),
         });
 
+        #[cfg(folo_verif)]
+        crate::verif::event(&crate::verif::Event::MetaCreate {
+            meta: crate::verif::address_of::<WakerMeta>(&handle),
+            ref_count: crate::verif::address_of(&handle.ref_count),
+            activated: crate::verif::address_of(&handle.activated),
+            parent: crate::verif::address_of::<Mutex<Waker>>(&handle.shared_parent),
+        });
+
         MetaPtr(plurality::Box::into_raw(handle).as_ptr())
     })
 }
@@ -129,6 +146,11 @@ pub(crate) fn release_ref(meta: MetaPtr) {
         // and this is the single `from_raw` call matching the `Box::into_raw` that
         // `create_waker_meta` performed for this pointer. Dropping the handle releases the
         // pool slot, so we hold no reference to the metadata across the drop.
+        #[cfg(folo_verif)]
+        crate::verif::event(&crate::verif::Event::MetaFree {
+            meta: meta.0.addr(),
+        });
+
         drop(unsafe { plurality::Box::<WakerMeta>::from_raw(ptr) });
     }
 }
